@@ -83,6 +83,8 @@ var c11Scens = []scen{
 	{"decode-and-wipe||hotp||totp", []string{"hotp-c1"}, [][]string{{"decode-and-wipe", "decode-and-wipe"}, {"hotp-c1"}, {"totp-gen"}}, [2]int{1, 2}, false, false},
 	{"3xhotp retained", []string{"hotp-c1"}, [][]string{{"hotp-c1", "hotp-1digit"}, {"hotp-c2^40-sha256-8"}, {"hotp-10digits"}}, [2]int{1, 2}, false, false},
 	{"ocra suites that are prefixes of one another", []string{"ocra-short-ext-P"}, [][]string{{"ocra-short"}, {"ocra-short-ext-T"}, {"ocra-short-ext-P"}}, [2]int{1, 2}, false, false},
+	{"hotp keys longer than the block: sha1||sha1", nil, [][]string{{"hotp-longkey-sha1-a"}, {"hotp-longkey-sha1-b"}}, [2]int{2, 3}, false, false},
+	{"hotp keys longer than the block: sha512||sha512||sha1", []string{"hotp-c1"}, [][]string{{"hotp-longkey-sha512-a"}, {"hotp-longkey-sha512-b"}, {"hotp-longkey-sha1-a"}}, [2]int{1, 2}, false, false},
 	{"one hotp paused while 90 others complete", []string{"hotp-c1"}, [][]string{{"hotp-c2^40-sha256-8"}, {"many-hotp-90"}}, [2]int{2, 3}, false, true},
 	{"one totp validation paused while 105 steps are derived", nil, [][]string{{"totp-validate-hit"}, {"many-totp-validate-miss-x5"}}, [2]int{2, 3}, false, true},
 	{"one ocra paused while 70 others complete", []string{"ocra-short"}, [][]string{{"ocra-short"}, {"many-ocra-70"}}, [2]int{2, 3}, false, true},
